@@ -1,5 +1,4 @@
 use crate::distributions::*;
-use crate::functions::binom_coeff;
 
 /// Implements the [Binomial](https://en.wikipedia.org/wiki/https://en.wikipedia.org/wiki/Binomial_distribution)
 /// distribution with trials `n` and probability of success `p`.
@@ -271,9 +270,22 @@ impl Discrete for Binomial {
         if k < 0 || k as u64 > self.n {
             return 0.;
         }
-        binom_coeff(self.n, k as u64) as f64
-            * self.p.powi(k as i32)
-            * (1. - self.p).powi((self.n - k as u64) as i32)
+        let k = k as u64;
+        if self.p == 0. || self.p == 1. {
+            // degenerate laws: all the mass sits on 0 or on n
+            return if (self.p == 0. && k == 0) || (self.p == 1. && k == self.n) {
+                1.
+            } else {
+                0.
+            };
+        }
+        // C(n, k) overflows u64 for large n (binom_coeff then returns 0), so work with logarithms:
+        // ln C(n, k) = sum_{i = 1..m} ln((n - i + 1) / i), m = min(k, n - k)
+        let m = k.min(self.n - k);
+        let ln_coeff: f64 = (1..=m)
+            .map(|i| ((self.n - i + 1) as f64 / i as f64).ln())
+            .sum();
+        (ln_coeff + k as f64 * self.p.ln() + (self.n - k) as f64 * (1. - self.p).ln()).exp()
     }
 }
 
